@@ -15,6 +15,7 @@ finding exactly.  A query without such a construct must be analysed exactly.
 import re
 import engine as E
 import pfam, sqlgen
+import anfam
 
 RISKY = ["with-clause", "anonymous-aggregate", "duplicate-output-name", "scalar-subquery", "aliased-wildcard", "union-unqualified", "derived-alias-reused",
          "unknown-qualified-column", "unknown-qualifier", "dialect-variable", "derived-without-alias", "count-star-join"]
@@ -391,13 +392,13 @@ def run(ctx):
             if c["risky"] == [feat]:
                 cases.append(c); k += 1
                 if k >= n_risky: break
-    res, bad = ctx.corr([req(c) for c in cases], stream="known")
+    res, bad = anfam.corr(ctx, [req(c) for c in cases], stream="known")
     for c, (_, a, _) in zip(cases, res):
         for t in c["tags"]:
             ctx.count("shape:" + t)
         check_case(ctx, c, a, "dedicated generator")
     gen = [general_case(r) for _ in range(n_gen)]
-    ctx.corr([req(c) for c in gen], stream="general")
+    anfam.corr(ctx, [req(c) for c in gen], stream="general")
     for f in ctx.findings:
         if f.get("status") == "finding":
             w = f["witness"]
